@@ -225,6 +225,7 @@ def vacuity(results):
     return probs
 
 
+ASSUMPTIONS = ['SmartString::is_inline() is modelled as len <= 23; a change that makes ==, Hash or Ord depend on whether a short value still lives on the heap (after an in-place truncate) is not detected (seeded change S7-C19)']
 LEVEL_TEXT = ('bounded symbolic model checking of the real MIR: two (three) PURLs are produced from independent holes on one path -- spellings of one tuple, '
               'values one character apart, a separator moved between adjacent fields, qualifier values with & and = -- and the derived ==, Hash (recorded stream), '
               'cmp and partial_cmp are interpreted; `== iff identical canonical strings`, hash agreement, antisymmetry, `Equal iff ==` and transitivity are decided by the solver')
